@@ -341,9 +341,17 @@ def main():
         # phase 2: replay files
         vio_lines = []
         os.makedirs(os.path.join(VERIF, "replays", prop), exist_ok=True)
-        for h, r in violations:
+        # concrete playback for at most two refuted harnesses (plain proofs first: Kani's concrete values
+        # are reliable there); the others carry the refuted obligation and the verifier's output
+        violations.sort(key=lambda hr: (1 if hr[0].contract_target else 0, hr[1].get("duration_s") or 0))
+        for vi, (h, r) in enumerate(violations):
             rp = os.path.join(VERIF, "replays", prop, f"{h.name}.json")
-            pb = {"note": "playback disabled"} if args.no_playback else playback(scratch, h)
+            if args.no_playback:
+                pb = {"note": "playback disabled"}
+            elif vi >= 2:
+                pb = {"note": "playback limited to the first two refuted harnesses of a run; see their replay files"}
+            else:
+                pb = playback(scratch, h)
             confirmed = bool(pb.get("native") and pb["native"].get("failed_natively"))
             rep = {"property": prop, "harness": h.name, "kind": h.kind, "class": h.cls, "contract_of": h.contract_target,
                    "failed_obligations": r["failed"], "harness_source": h.text, "playback": pb,
